@@ -38,7 +38,7 @@ def messages(rng, n):
             'line\nbreak\t tab', '\x00\x01', '😀 emoji']
     out = list(base)
     for _ in range(n):
-        ln = rng.choice([1, 5, 20, 100, 252, 253, 300])
+        ln = rng.choice([1, 5, 20, 100, 252, 253, 300] + [v for v in G.source_literals() if v <= 1000])
         alphabet = rng.choice(['abcdefghijklmnopqrstuvwxyz ', 'äöüßéè漢字', 'abc😀'])
         out.append(''.join(rng.choice(alphabet) for _ in range(ln)))
     return out
@@ -57,7 +57,8 @@ def cases(ctx):
         yield Case(f'msg_digest {hx(mg)} {hx(b)}', 'ms', nontrivial=nt, tag='digest', spec=lambda ans, b=b: (f's:msg_digest {hx(b)}', ans))
     triples = []
     small = [m for m in msgs if len(m) <= 300]
-    keys = [1, 2, N - 1] + [rng.randrange(1, N) for _ in range(ctx.n(15, 800))]
+    keys = [1, 2, N - 1] + [rng.randrange(1, N) for _ in range(ctx.n(10, 600))]
+    keys = keys + [rng.choice(keys) for _ in range(ctx.n(8, 300))]      # keys that sign several messages / networks / compressions
     for d in keys:
         net = rng.choice(NETS); c = rng.random() < 0.5
         m = rng.choice(small if rng.random() < 0.9 else msgs)
@@ -107,6 +108,9 @@ def cases(ctx):
             yield Case(f'msg_verify {hx(mg)} {np(net)} {sh(a)} {hx(s)} {hx(bb)}', 'ms', nontrivial=kind != 'valid', tag='verify-' + kind, spec=spec)
 
 
+KEYS = {}
+
+
 def impl(op, a, ctx):
     from bitcoinutils.setup import setup
     from bitcoinutils.keys import PrivateKey, PublicKey
@@ -117,7 +121,7 @@ def impl(op, a, ctx):
         return 'ok ' + hashlib.sha256(hashlib.sha256(add_magic_prefix(m)).digest()).hexdigest()
     if op in ('msg_sign', 'msg_sign_recover'):
         net = F.next(); d = F.int(); c = F.bool(); m = F.bytes().decode(); setup(net)
-        k = PrivateKey(secret_exponent=d)
+        k = KEYS.setdefault(d, PrivateKey(secret_exponent=d))       # one object per secret for the whole run
         s = k.sign_message(m, compressed=c)
         if s is None: return 'ok none'
         if s != k.sign_message(m, compressed=c): return 'ok nondeterministic'
